@@ -108,14 +108,35 @@ CLOSERS = {v: k for k, v in OPENERS.items()}
 
 
 def check_balance(toks):
+    """Bracket balance of the token list.  Inside the parentheses of an attribute
+    (+name( ... )) the text is free-form and only parentheses are balanced."""
     stack = []
-    for (t, v) in toks:
+    i = 0
+    n = len(toks)
+    while i < n:
+        t, v = toks[i]
+        if t == "PLUS" and i + 2 < n and toks[i + 1][0] == "ID" and toks[i + 2][0] == "LPAREN":
+            depth = 0
+            j = i + 2
+            while j < n:
+                if toks[j][0] == "LPAREN":
+                    depth += 1
+                elif toks[j][0] == "RPAREN":
+                    depth -= 1
+                    if depth == 0:
+                        break
+                j += 1
+            if j >= n:
+                raise RefReject("syntax:unbalanced", "unclosed ( in attribute")
+            i = j + 1
+            continue
         if t in OPENERS:
             stack.append(t)
         elif t in CLOSERS:
             if not stack or stack[-1] != CLOSERS[t]:
                 raise RefReject("syntax:unbalanced", "unmatched %s" % v)
             stack.pop()
+        i += 1
     if stack:
         raise RefReject("syntax:unbalanced", "unclosed %s" % stack[-1])
 
@@ -328,7 +349,7 @@ class Reader(object):
             raise RefReject("syntax:other", "type specifier expected, found %s %r" % (self.typ, self.val))
         if named is not None:
             if named in self.sym.templates and not targs and not d.is_ctor:
-                pass  # std::vector without arguments: tolerated (incomplete)
+                raise RefReject("semantic:template", "template '%s' used without arguments" % named)
             base = named
         else:
             base = canon_specifier(words)
@@ -490,6 +511,9 @@ class Reader(object):
             p = params[0]
             if p.type == ("base", "void", frozenset(), ()) and p.name is None and not p.attrs and p.init is None:
                 params = []
+        for p in params:
+            if p.type[0] == "base" and p.type[1] == "void":
+                raise RefReject("semantic:void-param", "parameter of type void")
         return params
 
     # ------------------------------------------------------------------ expressions
